@@ -27,6 +27,9 @@ def sh(cmd, cwd=None, env=None, timeout=3600):
 
 
 def main():
+    args = [a for a in sys.argv[1:] if a != "--checks-only"]
+    checks_only = "--checks-only" in sys.argv   # re-run the checks against an already confirmed seeded change (regression of detection)
+    sys.argv = [sys.argv[0]] + args
     src, name = sys.argv[1], sys.argv[2]
     meta = json.load(open(os.path.join(src, "meta.json"))) if os.path.exists(os.path.join(src, "meta.json")) else {}
     checks = sys.argv[3:] or [meta.get("property", name.split("-")[0])]
@@ -36,16 +39,16 @@ def main():
     report = {"name": name, "checks": {}, "ran": []}
     try:
         # demonstration on the clean tree
-        rc_clean, out_clean = sh("sh %s %s" % (os.path.join(src, "run.sh"), wt), cwd=src, timeout=1800)
+        rc_clean, out_clean = (0, "") if checks_only else sh("sh %s %s" % (os.path.join(src, "run.sh"), wt), cwd=src, timeout=1800)
         report["demo_on_clean_tree"] = {"rc": rc_clean, "tail": out_clean[-400:]}
         rc, out = sh("git apply %s" % os.path.join(src, "patch.diff"), cwd=wt)
         if rc != 0:
             report["error"] = "patch does not apply to the current HEAD: " + out[-400:]
             print(json.dumps(report, indent=1))
             return 2
-        rc_b, out_b = sh("cmake -G Ninja -B _build -DCMAKE_BUILD_TYPE=RelWithDebInfo . >/dev/null 2>&1 && cmake --build _build 2>&1 | tail -2 && ctest --test-dir _build -j8 2>&1 | tail -3", cwd=wt)
+        rc_b, out_b = (0, "100% tests passed (not re-run)") if checks_only else sh("cmake -G Ninja -B _build -DCMAKE_BUILD_TYPE=RelWithDebInfo . >/dev/null 2>&1 && cmake --build _build 2>&1 | tail -2 && ctest --test-dir _build -j8 2>&1 | tail -3", cwd=wt)
         report["suite_with_change"] = {"rc": rc_b, "tail": out_b[-300:], "passes": "100% tests passed" in out_b}
-        rc_ch, out_ch = sh("sh %s %s" % (os.path.join(src, "run.sh"), wt), cwd=src, timeout=1800)
+        rc_ch, out_ch = (1, "") if checks_only else sh("sh %s %s" % (os.path.join(src, "run.sh"), wt), cwd=src, timeout=1800)
         report["demo_on_changed_tree"] = {"rc": rc_ch, "tail": out_ch[-400:]}
         report["confirmed"] = bool(report["suite_with_change"]["passes"] and rc_clean == 0 and rc_ch != 0)
         shutil.rmtree(os.path.join(wt, "_build"), ignore_errors=True)
@@ -63,7 +66,15 @@ def main():
         sh("python3 extract/consts.py /repo lean/Cjet/Generated/Consts.lean >/dev/null", cwd=ROOT)
     dst = os.path.join(ROOT, "seeded", name)
     os.makedirs(dst, exist_ok=True)
-    for f in os.listdir(src):
+    if checks_only:
+        old = meta.get("verification", {})
+        for k in ("demo_on_clean_tree", "suite_with_change", "demo_on_changed_tree", "confirmed"):
+            if k in old:
+                report[k] = old[k]
+        prev = dict(old.get("checks", {}))
+        prev.update(report["checks"])
+        report["checks"] = prev
+    for f in ([] if os.path.abspath(src) == os.path.abspath(dst) else os.listdir(src)):
         if os.path.isfile(os.path.join(src, f)) and os.path.getsize(os.path.join(src, f)) < 400000 and f not in ("meta.json",):
             shutil.copy(os.path.join(src, f), os.path.join(dst, f))
     meta.update({"verification": report, "breaks_property": meta.get("property", name.split("-")[0])})
